@@ -349,3 +349,5 @@ func vfFileID(p string) uint64 {
 	}
 	return h
 }
+
+var sattrNone = xdrw.Sattr3{}
